@@ -17,14 +17,44 @@ namespace Driver.C11
 
 /-! ### filters -/
 
+def strListOpt' (j : Json) (k : String) : List String :=
+  match getStrList j k with | .ok l => l | .error _ => []
+
 structure FOut where
   panic : String
   result : String
   status : Int
+  /-- canonical digest of what `Handle` left in the context (request line, headers, payload for
+  HTTP; disconnect/drop flags and context data for MQTT) -/
+  eff : String
 deriving BEq, Repr
 
 def parseOut (j : Json) : FOut :=
-  { panic := optStr j "panic", result := optStr j "result", status := optInt j "status" }
+  { panic := optStr j "panic", result := optStr j "result", status := optInt j "status", eff := optStr j "eff" }
+
+/-- Kinds that handle MQTT contexts. -/
+def mqttKinds : List String := ["TopicMapper", "MQTTClientAuth", "ConnectControl", "KafkaMQTT"]
+
+/-- The `@inventory` case: the harness reports its generator table and the kinds registered in the
+test binary; the table must be exactly `exercisedFilterKinds` (so the Lean list that the coverage
+obligation `filter_kinds_classified` rests on is the list the harness really drives), every
+generator kind must be registered and creatable, and every registered kind must be classified. -/
+def judgeInventory (obs : Json) : Verdict :=
+  let gens := strListOpt' obs "generators"
+  let reg := strListOpt' obs "registered"
+  let missing := exercisedFilterKinds.filter (fun k => !gens.contains k)
+  let extra := gens.filter (fun k => !exercisedFilterKinds.contains k)
+  let unreg := gens.filter (fun k => !reg.contains k)
+  let unclassified := reg.filter fun k =>
+    !exercisedFilterKinds.contains k && !(notInstantiableFilterKinds.map (·.1)).contains k
+  let ok := missing.isEmpty && extra.isEmpty && unreg.isEmpty && unclassified.isEmpty
+  { agree := ok, spec := ok, tags := ["inventory"] ++ gens.map ("generator:" ++ ·), nontrivial := false,
+    sig := if ok then "" else
+      if !missing.isEmpty then "inventory:exercised-kind-without-generator:" ++ ",".intercalate missing
+      else if !extra.isEmpty then "inventory:generator-kind-not-in-exercised-list:" ++ ",".intercalate extra
+      else if !unreg.isEmpty then "inventory:generator-kind-not-registered:" ++ ",".intercalate unreg
+      else "inventory:registered-kind-unclassified:" ++ ",".intercalate unclassified,
+    expected := Json.arr (exercisedFilterKinds.map Json.str).toArray }
 
 def parseOuts (obs : Json) (k : String) : List FOut :=
   match getArr obs k with
@@ -57,6 +87,8 @@ def houtJson (l : List HOut) : Json :=
 
 def judgeFilters : Judge := liftJudge fun input obs => do
   let kind := optStr input "kind" "?"
+  if kind == "@inventory" then
+    return judgeInventory obs
   let level := optStr input "level" "pipeline"
   let err := optStr obs "err"
   let opsIn := (← getArr input "ops").toList
@@ -64,7 +96,8 @@ def judgeFilters : Judge := liftJudge fun input obs => do
   let ops : List (Bool × FReq) := opsIn.map fun o =>
     (optInt o "g" != 0, parseFReq ((o.getObjVal? "req").toOption.getD Json.null))
   let pre : List FReq := preIn.map parseFReq
-  let tags0 := ["kind:" ++ kind, "level:" ++ level]
+  let tags0 := ["kind:" ++ kind, "level:" ++ level, if mqttKinds.contains kind then "ctx:mqtt" else "ctx:http"] ++
+    (if exercisedFilterKinds.contains kind then [] else ["kind-not-in-exercised-list"])
   if err == "bad-input" || err == "bad-spec" || err == "init-panic" || err == "budget-exhausted" then
     return { agree := true, spec := true, tags := tags0 ++ ["skipped:" ++ err], nontrivial := false }
   if err == "inherit-panic" || err == "close-panic" then
@@ -107,8 +140,10 @@ def judgeFilters : Judge := liftJudge fun input obs => do
   else
     -- kinds whose Inherit ignores the previous generation: the model predicts exactly what a
     -- never-updated instance of the same spec does
-    let agree := lenOk && triple.all fun ((_, o), b) => o == b
-    return { agree := agree, spec := spec, expected := Json.null, tags := tags1, nontrivial := oldOps,
+    let agree := lenOk && exercisedFilterKinds.contains kind && triple.all fun ((_, o), b) => o == b
+    let effTags := (if gotOps.any (fun o => o.result != "") then ["some-nonempty-result"] else []) ++
+      (if (ops.zip gotOps).any (fun (g, o) => !g.1 && o.result != "") then ["nonempty-result-on-old-generation"] else [])
+    return { agree := agree, spec := spec, expected := Json.null, tags := tags1 ++ effTags, nontrivial := oldOps,
              sig := sig, note := optStr obs "note" }
 
 /-! ### mux -/
